@@ -159,6 +159,13 @@ SIG = {
     'negate_privkey': ('utils.py', 'negate_privkey', [('key', 'Bytes')], 'Bytes'),
     'tweak_taproot_pubkey': ('utils.py', 'tweak_taproot_pubkey', [('internal_pubkey', 'Bytes'), ('tweak', 'Int')], 'Bytes × Bool'),
     'tweak_taproot_privkey': ('utils.py', 'tweak_taproot_privkey', [('privkey', 'Bytes'), ('tweak', 'Int')], 'Bytes'),
+    'i_to_b32': ('utils.py', 'i_to_b32', [('i', 'Int')], 'Bytes'),
+    # ECDSA input signing: python-ecdsa's deterministic signer and DER codec are parameters (the signer as a function of the extra
+    # entropy: None for the first attempt); the grinding loop is unbounded in Python — the translation carries a bound as a parameter
+    'sign_input': ('keys.py', 'PrivateKey._sign_input',
+                   [('ecdsa_sign', 'Option Bytes → Bytes'), ('sigdecode_der', 'Bytes → Int → Except PyErr (Int × Int)'),
+                    ('sigencode_der', 'Int → Int → Int → Bytes'), ('grind_bound', 'Nat'), ('tx_digest', 'Bytes'), ('sighash', 'Int')],
+                   'Bytes'),
     # taproot signing: the key object is its 32 secret bytes, the public-key object its 64 bytes x || y
     'sign_taproot_input': ('keys.py', 'PrivateKey._sign_taproot_input',
                            [('hashlib_sha256', 'Bytes → Bytes'), ('OPS', 'List (String × Bytes)'), ('self_key_bytes', 'Bytes'),
@@ -222,7 +229,9 @@ FILE_CONSTS = {}
 # small shows up as a disagreement with the implementation and as an unprovable equivalence, never silently.
 WHILE_FUEL = {'convertbits': '(Int.toNat bits + 1)',
               # every iteration of Script.from_raw advances the index by at least one byte
-              'script_from_raw': '(List.length scriptraw + 1)'}
+              'script_from_raw': '(List.length scriptraw + 1)',
+              # low-R grinding: no bound exists in the source (each retry succeeds with probability 1/2); the caller supplies one
+              'sign_input': 'grind_bound'}
 # return types of translated callees that are lists (for `+` -> `++`)
 LIST_RET = {'bech32_hrp_expand', 'bech32_create_checksum'}
 STR_UTF8 = {'utils_tagged_hash', 'tapbranch_tagged_hash', 'tapleaf_tagged_hash', 'add_magic_prefix', 'taproot_digest', 'calculate_tweak'}
@@ -614,7 +623,29 @@ class Tr:
             return f'(Py.slice pubkey_bytes {lo} {hi})'
         return None
 
+    def e_sign(s, n):
+        if isinstance(n, ast.Attribute) and isinstance(n.value, ast.Name) and n.value.id == 'Secp256k1Params' and n.attr == '_order':
+            return CONSTS['Secp256k1Params._order']
+        if (isinstance(n, ast.Call) and isinstance(n.func, ast.Attribute) and n.func.attr == 'sign_digest_deterministic'
+                and isinstance(n.func.value, ast.Attribute) and n.func.value.attr == 'key' and isinstance(n.func.value.value, ast.Name)
+                and n.func.value.value.id == 'self' and len(n.args) == 1 and isinstance(n.args[0], ast.Name) and n.args[0].id == 'tx_digest'):
+            kw = {k.arg: k.value for k in n.keywords}
+            if not (set(kw) <= {'sigencode', 'hashfunc', 'extra_entropy'} and isinstance(kw.get('sigencode'), ast.Name)
+                    and kw['sigencode'].id == 'sigencode_der' and isinstance(kw.get('hashfunc'), ast.Attribute)
+                    and kw['hashfunc'].attr == 'sha256' and getattr(kw['hashfunc'].value, 'id', '') == 'hashlib'):
+                s.fail(n, 'sign_digest_deterministic arguments')
+            ent = f'(some {s.e(kw["extra_entropy"])})' if 'extra_entropy' in kw else 'none'
+            return f'(ecdsa_sign {ent})'
+        if isinstance(n, ast.Call) and isinstance(n.func, ast.Name):
+            if n.func.id == 'i_to_b32' and len(n.args) == 1: return s.eff(f'i_to_b32 {s.e(n.args[0])}')
+            if n.func.id == 'sigdecode_der' and len(n.args) == 2: return s.eff(f'sigdecode_der {s.e(n.args[0])} {s.e(n.args[1])}')
+            if n.func.id == 'sigencode_der' and len(n.args) == 3: return f'(sigencode_der {s.e(n.args[0])} {s.e(n.args[1])} {s.e(n.args[2])})'
+        return None
+
     def e(s, n):
+        if s.name == 'sign_input':
+            r = s.e_sign(n)
+            if r is not None: return r
         if s.name in TREEFUNS:
             r = s.e_tree(n)
             if r is not None: return r
@@ -952,6 +983,7 @@ class Tr:
             nm = f.attr if isinstance(f, ast.Attribute) else getattr(f, 'id', '')
             if nm == 'hex' and s.name in PARSERS and isinstance(f, ast.Attribute): return s.isbytes(f.value)
             if nm == 'full_pubkey_gen' and s.name in TWEAKFUNS: return True
+            if s.name == 'sign_input' and nm in ('sign_digest_deterministic', 'sigencode_der'): return True
             if s.name in TREEFUNS and nm in ('get_tag_hashed_merkle_root', 'tapleaf_tagged_hash', 'tapbranch_tagged_hash', 'tagged_hash',
                                              'tweak_taproot_privkey', 'schnorr_sign', 'to_string'): return True
             return nm in ('to_bytes', 'pack', 'bytes', 'encode_varint', 'h_to_b', 'b_to_h', '_op_push_data',
